@@ -60,7 +60,12 @@ def tie(rep, tier, rng, model_ok):
     rep.cov["parts"]["partitions"]["groups"] = len(groups)
     rep.cov["parts"]["partitions"]["partition_dependent_groups"] = bad
     b = [simgen.gen_sched(rng) for _ in range(150 if q else 4000)]
-    simprops.run(rep, "C10", model_ok, [("sched-1thread", b, (1,), ORACLES, lambda c, o: "periodic" in c.get("tags", ()))],
+    # "... until it is cancelled": a keyed periodic series cancelled by an earlier event of the same model at the time of
+    # one of its occurrences (no occurrence from that time on), by the driver between steps, or after firing
+    kc = [c for c in (simgen.gen_cancel(rng) for _ in range(300 if q else 6000)) if any(
+        op[0] == "sch" and op[5] is not None for h in c["models"][0]["handlers"] for op in h)]
+    simprops.run(rep, "C10", model_ok, [("sched-1thread", b, (1,), ORACLES, lambda c, o: "periodic" in c.get("tags", ())),
+                                        ("periodic-cancelled-in-the-step", kc, (1, 3), ORACLES + (oracles.o_handler_cancel,), lambda c, o: True)],
                  "1-4 periodic series, model-input events and EventSource events scheduled by the driver, or 1-2 series armed by the model on itself (oracle: every occurrence first + k*period up to the time reached has run, once, when the stepping call returns) (periods 1,2,3,4,6,10 ns; first deadlines 1..12) with coincidences and cancel points, horizon 15..40 cut into 4 partitions per bench (one step_until, unit steps, two random mixes); all partitions must produce the same (input, payload, time) firing sequence, equal to the model's; + general scheduling benches. non-trivial = >=4 occurrences fired")
 
 
